@@ -291,6 +291,31 @@ def script_main():
             print("RESULT " + json.dumps({"state": "CONFIRMED", "message": "templates extracted from the real handlers reproduce %d concrete renderings; slots are exactly name/id/fields; identical under 4 parser contexts" % n,
                                           "paths": n, "solver_calls": 0, "solver_s": 0.0, "wall_s": time.time() - t0}))
             return
+        if shard.get("what") == "pool":
+            import z3
+            T = pool_texts(shard.get("nsuffix", len(SUFFIX)))
+            N = len(T)
+            i, j = z3.Ints("i j")
+            sol = z3.Solver()
+            fm = z3.Function("hashed_msg", z3.IntSort(), z3.StringSort())
+            fs = z3.Function("hashed_struct", z3.IntSort(), z3.StringSort())
+            for k, (a, b, t) in enumerate(T):
+                sol.add(fm(k) == z3.StringVal(a), fs(k) == z3.StringVal(b))
+            sol.add(0 <= i, i < j, j < N, z3.Or(fm(i) == fm(j), fs(i) == fs(j)))
+            ts = time.time()
+            r = sol.check()
+            res = {"paths": N * (N - 1) // 2, "solver_calls": 1, "solver_s": round(time.time() - ts, 3), "wall_s": time.time() - t0}
+            if str(r) == "unsat":
+                res.update(state="CONFIRMED", message="unsat: the %d accepted type texts of the pool give %d pairwise different hashed texts (real handlers)" % (N, N))
+            elif str(r) == "sat":
+                m = sol.model()
+                a, b = T[m[i].as_long()], T[m[j].as_long()]
+                res.update(state="POST_FAIL", replayed_real=bool(a[0] == b[0] or a[1] == b[1]), call=json.dumps([a[2], b[2]]),
+                           message="type texts %r and %r are hashed to the same text by the real handler" % (a[2], b[2]))
+            else:
+                res.update(state="CANNOT_CONFIRM", message="z3 answered %s" % r)
+            print("RESULT " + json.dumps(res))
+            return
         s1, k1, s2, k2 = shard["s1"], shard["k1"], shard["s2"], shard["k2"]
         r = inject_query(s1, k1, s2, k2, shard.get("maxlen", 3), shard.get("timeout", 120), fname_len=shard.get("fname_len"))
         res = {"paths": 1, "solver_calls": 1, "solver_s": r["solver_s"], "wall_s": time.time() - t0}
@@ -307,6 +332,55 @@ def script_main():
     except Exception as e:
         import traceback
         print("RESULT " + json.dumps({"state": "HARNESS_ERROR", "message": "%s: %s" % (type(e).__name__, e), "traceback": traceback.format_exc()[-1500:]}))
+
+
+# ------------------------------------------------------------------ accepted type texts from a pool, through the real handler
+NATIVES = sorted(P.supported_types)
+SUFFIX = ["", "[2]", "[4]", "[ 4 ]", "[N]"]
+TYPE_POOL = [n + sfx for n in NATIVES for sfx in SUFFIX]
+
+
+_POOL_TEXTS = {}
+
+
+def pool_texts(nsfx):
+    """the texts the real handlers hash for every pool entry (computed once per process from the current source, concretely)"""
+    if nsfx not in _POOL_TEXTS:
+        from engine.shadow import NoTracing
+        with NoTracing():
+            out = []
+            for n in NATIVES:
+                for sfx in SUFFIX[:nsfx]:
+                    t = n + sfx
+                    out.append((hashed_text("msg", 1, ("Msg", 77, {"fld": t}, "X")), hashed_text("struct", 1, ("Str", 0, {"fld": t}, "X")), t))
+            _POOL_TEXTS[nsfx] = out
+    return _POOL_TEXTS[nsfx]
+
+
+def pool_pair(i, j):
+    """two one-field definitions that differ only in the field's type text (both accepted forms): the texts the real
+    handlers hash must differ.  i < j index the pool of every native type name x suffixes."""
+    T = pool_texts(sh("nsuffix", len(SUFFIX)))
+    a, b = T[i], T[j]
+    if a[0] == b[0] or a[1] == b[1]:
+        return False, "type texts %r and %r give the same hashed text" % (a[2], b[2])
+    return True, ""
+
+
+def h_pool(i: int, j: int) -> bool:
+    """
+    pre: 0 <= i < j < len(NATIVES) * sh("nsuffix", len(SUFFIX))
+    post: _
+    """
+    return verdict(pool_pair(i, j))
+
+
+def h_pool_reach(i: int, j: int) -> bool:
+    """
+    pre: 0 <= i < j < len(NATIVES) * sh("nsuffix", len(SUFFIX))
+    post: _
+    """
+    return reached(pool_pair(i, j))
 
 
 # ------------------------------------------------------------------ CrossHair obligations: printers and stamping
